@@ -226,3 +226,45 @@ func VerifHarness_C09_tick2() {
 	vfLaterMenu, vfRelMenu = false, 3
 	vfHarnessC09Tick(2, 1)
 }
+
+// C09.ticks: the real Scheduler.start loop over a scripted clock. Each tick's processing
+// may end late by an amount from a menu (late and bunched ticks); the sequence of minutes
+// handed to run must be consecutive: none skipped, none repeated.
+type vfTickReader struct {
+	s     *Scheduler
+	ticks []time.Time
+	k     int
+}
+
+var vfLate = []time.Duration{0, 20 * time.Second, 70 * time.Second, 200 * time.Second}
+
+func (r *vfTickReader) Start(done chan any) {}
+func (r *vfTickReader) Read(now time.Time) ([]*entry, error) {
+	tick := now.Add(time.Second) // run() hands tick - 1s to Read
+	r.ticks = append(r.ticks, tick)
+	vfEvent("tick", len(r.ticks), 0)
+	// the wall clock when this tick's work ends
+	setFixedTime(tick.Add(vfLate[vfChoice("late", len(vfLate))]))
+	if len(r.ticks) == r.k {
+		r.s.Stop()
+	}
+	return nil, nil
+}
+
+func vfHarnessC09Ticks(k int) {
+	lg := logger.NewLogger(logger.NewLoggerArgs{Quiet: true})
+	r := &vfTickReader{k: k}
+	s := newScheduler(newSchedulerArgs{EntryReader: r, Logger: lg})
+	r.s = s
+	start := vfT0.Add(time.Duration(vfChoice("startSecond", 3)) * 25 * time.Second) // daemon started at :00, :25 or :50
+	setFixedTime(start)
+	s.start()
+	vfAssert(len(r.ticks) == k, "C09.ticks/loop-ends-when-stopped")
+	for i, t := range r.ticks {
+		vfAssert(t.Equal(vfT0.Add(time.Duration(i)*time.Minute)), "C09.ticks/minutes-are-consecutive-none-skipped-none-repeated")
+	}
+	vfReach("end")
+}
+
+func VerifHarness_C09_ticks3() { vfHarnessC09Ticks(3) }
+func VerifHarness_C09_ticks4() { vfHarnessC09Ticks(4) }
